@@ -1,6 +1,7 @@
 (* C19 - filterFasta keeps exactly the entries satisfying its criteria.
    Model: Model/Filter.v (abstract FASTA = list of (sequence, list of entry facts); concrete layer with
    headers parsed by Model/Header.v).  All statements are for every pool, option set, enzyme rule. *)
+From MoPep Require Gen.Expasy Model.ExpasyRef Proofs.ExpasyProofs.
 From MoPep Require Import Model.Base Gen.HeaderCfg Model.Rule Model.Digest Model.Header Model.HeaderRef Model.Filter
   Proofs.FilterProofs Proofs.HeaderProofs.
 Open Scope Z_scope.
@@ -130,3 +131,10 @@ Theorem code_keep_list_is_model : forall o d es,
   Py_VariantPeptidePool.py_keep_list o d es = keep_list o d es.
 Proof. exact code_keep_list_is_model_l. Qed.
 Print Assumptions code_keep_list_is_model.
+
+(* The oracle of this property digests with the rule tables regenerated from expasy_rules.py
+   (coq/Gen/Expasy.v); they must be the ExPASy reference rules (same obligation as in Props/C10.v),
+   otherwise model and implementation would silently follow a changed rule together. *)
+Theorem rules_are_expasy_reference : MoPep.Gen.Expasy.site_rules = MoPep.Model.ExpasyRef.reference_rules.
+Proof. exact MoPep.Proofs.ExpasyProofs.rules_match_reference_proof. Qed.
+Print Assumptions rules_are_expasy_reference.
